@@ -723,8 +723,13 @@ class SymEval:
                     return T.sym(f"rex.{frame.module}.{name}")
         return T.sym(name)  # builtin or unknown global
 
+    # attributes another thread may write while this function runs: *when* they are read matters, so each read is an event
+    VOLATILE = ("_must_reset",)
+
     def ex_Attribute(self, e, frame):
         base = self.eval(e.value, frame)
+        if e.attr in self.VOLATILE and isinstance(e.ctx, ast.Load):
+            self.emit("read", T.show(T.mk_attr(base, e.attr)), T.mk_attr(base, e.attr), e, frame)
         if (base, e.attr) in self.heap:
             return self.heap[(base, e.attr)]
         # in-repo property on a typed receiver
@@ -926,13 +931,13 @@ class SymEval:
             return None
         conds = [T.eq(key, k, numeric=False) for k in keys]
         if default is None:
+            # the fall-through is recorded as a raise (rules that ask "does anything else raise" see it); like other implicit
+            # exceptions (AttributeError, IndexError, ...) it does not narrow the path condition of what follows
             live0 = self.live
             self.live = T.mk_and([live0] + [T.mk_not(c) for c in conds])
             if self.live != T.FALSE:
                 self.emit("raise", frame.func, T.mk_call("KeyError", [key]), node, frame)
-                if frame.is_helper:
-                    frame.raised = T.mk_or([frame.raised, self.live])
-            self.live = T.mk_and([live0, T.mk_or(conds)])
+            self.live = live0
             out = base[1][-1][1]
             rest = list(zip(conds, [v for _, v in base[1]]))[:-1]
         else:
